@@ -204,3 +204,61 @@ func minInt(a, b int) int {
 	}
 	return b
 }
+
+// TwinMSMs returns frames (payloads) that differ from each other in exactly one structural aspect while
+// sharing everything else: the same cell-mask bits with transposed shape (a x b vs b x a), the same payload
+// under another constellation's type, the same masks with other cell data.  A decoder that caches anything
+// keyed on part of a message confuses such neighbours.
+func TwinMSMs(rng *rand.Rand, typ int) [][]byte {
+	shapes := [][2]int{{2, 3}, {6, 2}, {4, 3}, {1, 4}, {2, 8}, {5, 3}, {16, 4}, {2, 32}}
+	sh := shapes[rng.Intn(len(shapes))]
+	a, b := sh[0], sh[1]
+	bits := make([]int, a*b)
+	n := 0
+	for i := range bits {
+		bits[i] = rng.Intn(2)
+		n += bits[i]
+	}
+	if n == 0 {
+		bits[0], n = 1, 1
+	}
+	mk := func(t, nsat, nsig int, cells [][]int64) []byte {
+		s := RandomMSM(rng, t, 0, -1, 0, 0)
+		s.SatMask = pickMask(rng, 64, nsat)
+		s.SigMask = uint32(pickMask(rng, 32, nsig))
+		s.CellMask = bits
+		sw := SatWidths(t)
+		for k := 0; k < nsat; k++ {
+			row := make([]int64, len(sw))
+			for fi, width := range sw {
+				row[fi] = fieldValue(rng, width, IsMSM7(t) && fi == 3, 0)
+			}
+			s.Sat = append(s.Sat, row)
+		}
+		s.Cell = cells
+		return s.Encode()
+	}
+	cellsFor := func(t int) [][]int64 {
+		gw, gs := SigWidths(t)
+		var cells [][]int64
+		for k := 0; k < n; k++ {
+			row := make([]int64, len(gw))
+			for fi, width := range gw {
+				row[fi] = fieldValue(rng, width, gs[fi], 0)
+			}
+			cells = append(cells, row)
+		}
+		return cells
+	}
+	c1 := cellsFor(typ)
+	other := MSMTypes[rng.Intn(len(MSMTypes))]
+	for IsMSM7(other) != IsMSM7(typ) {
+		other = MSMTypes[rng.Intn(len(MSMTypes))]
+	}
+	return [][]byte{
+		mk(typ, a, b, c1),            // base
+		mk(typ, b, a, c1),            // transposed shape, same cell-mask bits
+		mk(typ, a, b, cellsFor(typ)), // same masks, other data
+		mk(other, a, b, c1),          // another constellation of the same family
+	}
+}
